@@ -29,7 +29,7 @@ m = {
  "hooks":{
   "guard":"verif",
   "enable":"no hook is committed to /repo: each check rsyncs /repo's working tree to a scratch directory, runs tools/simrewrite (typed go/ast instrumenter: seeded iteration order at every map/Range site, yield points and lock interception) over the copy, copies sim/simrt and the harness into it and builds with go1.26.8 -tags verif (C10 with -race)",
-  "baseline_off_cmd":"cd /repo && GOFLAGS=-mod=mod GOPROXY=off GOSUMDB=off go test -vet=off -count=1 -timeout 25m ./...",
+  "baseline_off_cmd":"cd /repo && GOFLAGS=-mod=mod GOPROXY=off go test -vet=off -count=1 -timeout 25m ./...",
   "source_commits":[],
   "add_only":True,
  },
